@@ -65,12 +65,14 @@ func (c *Collection) Snapshot(dst io.Writer) error {
 
 	// Take a snapshot of the current state
 	defer os.Remove(recorder.Name())
-	if _, err := c.writeState(s2.NewWriter(dst)); err != nil {
+	defer recorder.Close()
+	_, err = c.writeState(s2.NewWriter(dst))
+
+	// Close the recorder, regardless of whether the state was written or not
+	c.recorderClose()
+	if err != nil {
 		return err
 	}
-
-	// Close the recorder
-	c.recorderClose()
 	return recorder.Copy(dst)
 }
 
@@ -80,6 +82,8 @@ func (c *Collection) recorderOpen() (log *commit.Log, err error) {
 		dst := (*unsafe.Pointer)(unsafe.Pointer(&c.record))
 		ptr := unsafe.Pointer(log)
 		if !atomic.CompareAndSwapPointer(dst, nil, ptr) {
+			log.Close()
+			os.Remove(log.Name())
 			return nil, fmt.Errorf("column: unable to snapshot, another one might be in progress")
 		}
 	}
